@@ -345,13 +345,44 @@ macro_rules! lay_affine {
                 let mut x = *self;
                 x *= *o;
                 let l = [*self, *o];
-                vec![("A*B", *self * *o), ("A*=B", x), ("Product by ref", l.iter().product())]
+                let mut f = vec![("A*B", *self * *o), ("A*=B", x), ("Product by ref", l.iter().product())];
+                f.extend(<$A as Mixed>::mixed(self, o));
+                f
             }
             fn repad(&self, junk: &[u64]) -> Option<Self> {
                 <$A as Repad>::repad_impl(self, junk)
             }
         }
     };
+}
+/// the mixed matrix / affine product operators, converted back to the affine type (exact re-packaging)
+trait Mixed: Sized {
+    fn mixed(&self, o: &Self) -> Forms<Self>;
+}
+impl Mixed for Affine2 {
+    fn mixed(&self, o: &Self) -> Forms<Self> {
+        vec![
+            ("Mat3::from(A) * B", Affine2::from_mat3(Mat3::from(*self) * *o)),
+            ("A * Mat3::from(B)", Affine2::from_mat3(*self * Mat3::from(*o))),
+            ("Mat3A::from(A) * B", Affine2::from_mat3a(Mat3A::from(*self) * *o)),
+            ("A * Mat3A::from(B)", Affine2::from_mat3a(*self * Mat3A::from(*o))),
+        ]
+    }
+}
+impl Mixed for DAffine2 {
+    fn mixed(&self, o: &Self) -> Forms<Self> {
+        vec![("DMat3::from(A) * B", DAffine2::from_mat3(DMat3::from(*self) * *o)), ("A * DMat3::from(B)", DAffine2::from_mat3(*self * DMat3::from(*o)))]
+    }
+}
+impl Mixed for Affine3A {
+    fn mixed(&self, o: &Self) -> Forms<Self> {
+        vec![("Mat4::from(A) * B", Affine3A::from_mat4(Mat4::from(*self) * *o)), ("A * Mat4::from(B)", Affine3A::from_mat4(*self * Mat4::from(*o)))]
+    }
+}
+impl Mixed for DAffine3 {
+    fn mixed(&self, o: &Self) -> Forms<Self> {
+        vec![("DMat4::from(A) * B", DAffine3::from_mat4(DMat4::from(*self) * *o)), ("A * DMat4::from(B)", DAffine3::from_mat4(*self * DMat4::from(*o)))]
+    }
 }
 impl Repad for Affine2 {}
 impl Repad for DAffine2 {}
